@@ -511,6 +511,165 @@ def _repair_default(va, before, mut):
         pass
 
 
+# ---- (d) use, edit in place, use again: no observer may answer from before the edit ------------------------------
+VALUE_OBSERVERS = ('compose', 'ja3', 'hassh', 'hassh_server', 'fingerprints', 'key_bytes', 'host_key_asdict', 'key_tag',
+                   'as_json', 'as_markdown', '_asdict')
+
+
+def check_edit_histories(acc, o, wit, names=VALUE_OBSERVERS, wide=False, sigprefix='stale_after_edit'):
+    """For every in-place edit of o (objects.inplace_variants): a copy of o is observed with every observer, edited in
+    place, and observed again; each answer must equal the answer of the same value built by construction and never
+    observed before.  Returns the number of histories run."""
+    nc = objects._not_constructible()
+    try:
+        variants = objects.inplace_variants(o, wide)
+    except nc:
+        return 0
+    n = 0
+    for tag, rebuilt, inplace in variants:
+        try:
+            a = rebuilt()
+        except nc:
+            continue
+        obs = [x for x in available_observers(a) if x in names]
+        if not obs:
+            continue
+
+        def warm(c, obs=obs):
+            for x in obs:
+                run_observer(c, x, c)
+        try:
+            b = inplace(warm)
+        except nc + (AttributeError,):
+            continue
+        # the two histories must have reached the same *value*: equal dumps, or - because the dump also shows
+        # private attributes in which an implementation may cache answers - equal constructor-argument values
+        try:
+            same = canon.dump(b, eq=True, tz=True) == canon.dump(a, eq=True, tz=True)
+            if not same:
+                same = objects.value_dump(a) == objects.value_dump(b)
+        except Exception:  # noqa
+            same = False
+        if not same:
+            acc.count('edit_histories_not_same_value')
+            continue
+        n += 1
+        acc.counters['transitions'] = acc.counters.get('transitions', 0) + 3 * len(obs)
+        for x in obs:
+            ra, rb = run_observer(a, x, a), run_observer(b, x, b)
+            if ra != rb:
+                acc.violation('%s:%s:%s' % (sigprefix, _definer(b, x), x),
+                              '%s.%s answers %s after the object was observed and then edited in place (%s); the equal '
+                              'object built by construction answers %s' % (type(o).__name__, x.strip('_'),
+                                                                          repr(rb)[:80], tag, repr(ra)[:80]),
+                              dict(wit, tag=tag, observer=x))
+                break
+    return n
+
+
+def _edit_worker(args):
+    qn, idx, wide = args
+    acc = core.Acc()
+    cls = classes.class_by_name(qn)
+    objs = objects.seed_objects().get(cls, [])
+    if idx >= len(objs):
+        return acc.result()
+    with core.watchdog(1500):
+        n = check_edit_histories(acc, objs[idx], {'part': 'd', 'cls': qn, 'seed': idx}, wide=wide)
+    acc.count('edit_histories', n)
+    acc.state(core.h64('edit', qn, idx))
+    return acc.result()
+
+
+# ---- (e) two objects from the same bytes / the same parts never share state -------------------------------------
+def _twin_worker(args):
+    """parse(b) twice -> o1, o2.  Every in-place edit of o1 (vector events on every reachable vector, edits of every
+    mutable leaf of nested objects) must leave o2 unchanged."""
+    qn, = args
+    acc = core.Acc()
+    cls = classes.class_by_name(qn)
+    seeds = [b for b in c02.seeds_of(qn)][:3]
+    nc = objects._not_constructible()
+    for si, b in enumerate(seeds):
+        try:
+            o1 = cls.parse_exact_size(b)
+        except Exception:  # noqa
+            continue
+        for path, mutate in mutable_paths_events(o1):
+            try:
+                a = cls.parse_exact_size(b)
+                o2 = cls.parse_exact_size(b)
+            except Exception:  # noqa
+                break
+            # (an object built from a's own field values legitimately holds the same nested objects; the copying
+            #  contract of the vector constructors themselves is explored by C12)
+            others = [('parsed_again', o2)]
+            before = [canon.dump(x) for _, x in others]
+            try:
+                mutate(a)
+            except Exception:  # noqa - refused edit
+                continue
+            acc.counters['transitions'] = acc.counters.get('transitions', 0) + len(others)
+            acc.state(core.h64('twin', qn, si, path))
+            for (label, x), d0 in zip(others, before):
+                if canon.dump(x) != d0:
+                    acc.violation('shared_state:%s:%s' % (label, _field_owner(cls, path)),
+                                  'editing %s of one %s in place changed another object %s'
+                                  % (path, cls.__name__, 'parsed from the same bytes' if label == 'parsed_again'
+                                     else 'built from its field values'),
+                                  {'part': 'e', 'cls': qn, 'seed': si, 'path': path, 'other': label})
+                    break
+    return acc.result()
+
+
+def mutable_paths_events(o, prefix='', depth=0):
+    """[(path, mutate(root))] - in-place edits of everything mutable reachable from o within two levels."""
+    from cryptoparser.common.base import ArrayBase
+    out = []
+    if depth > 2:
+        return out
+
+    def resolve(root, path):
+        cur = root
+        for step in path:
+            cur = list(cur)[step] if isinstance(step, int) else getattr(cur, step)
+        return cur
+
+    def walk(cur, path, depth):
+        if isinstance(cur, ArrayBase):
+            for tag, apply, _ in objects.array_events(cur):
+                out.append(('.'.join(map(str, path)) + ':' + tag, lambda root, path=tuple(path), apply=apply: apply(resolve(root, path))))
+            if depth < 2:
+                for i, it in enumerate(list(cur)[:3]):
+                    if objects.is_lib_object(it):
+                        walk(it, path + [i], depth + 1)
+            return
+        if not attr.has(type(cur)) or isinstance(cur, __import__('enum').Enum):
+            return
+        for f in attr.fields(type(cur)):
+            try:
+                v = getattr(cur, f.name)
+            except AttributeError:
+                continue
+            if isinstance(v, bytearray):
+                out.append(('.'.join(map(str, path + [f.name])) + ':append-byte',
+                            lambda root, path=tuple(path + [f.name]): resolve(root, path).append(0x41)))
+            elif isinstance(v, list):
+                out.append(('.'.join(map(str, path + [f.name])) + ':list-append',
+                            lambda root, path=tuple(path + [f.name]): resolve(root, path).append(resolve(root, path)[0] if resolve(root, path) else 0)))
+            elif isinstance(v, (dict, set)):
+                out.append(('.'.join(map(str, path + [f.name])) + ':clear',
+                            lambda root, path=tuple(path + [f.name]): resolve(root, path).clear()))
+            elif objects.is_lib_object(v) and depth < 2:
+                walk(v, path + [f.name], depth + 1)
+            elif isinstance(v, bool) and path:
+                out.append(('.'.join(map(str, path + [f.name])) + ':flip',
+                            lambda root, path=tuple(path), name=f.name: setattr(resolve(root, path), name,
+                                                                                not getattr(resolve(root, path), name))))
+    walk(o, [], 0)
+    return out
+
+
 def run(ctx):
     so = objects.seed_objects()
     items = []
@@ -522,6 +681,12 @@ def run(ctx):
     ctx.pmap(_bound_worker, list(range(len(size_bound_objects()))))
     ctx.pmap(_alias_worker, [(classes.qualname(c),) for c in classes.parse_entry_classes()])
     ctx.pmap(_defaults_worker, list(range(len(constructible_with_defaults()))), nproc=min(core.NPROC, 8))
+    eitems = []
+    for cls in classes.parsable_classes():
+        for i in range(len(so.get(cls, []))[:None if not ctx.quick else 3] if False else min(len(so.get(cls, [])), 3 if ctx.quick else 10 ** 6)):
+            eitems.append((classes.qualname(cls), i, not ctx.quick))
+    ctx.pmap(_edit_worker, eitems)
+    ctx.pmap(_twin_worker, [(classes.qualname(c),) for c in classes.parse_entry_classes()])
     ctx.notes['classes_with_defaults'] = len(constructible_with_defaults())
     ctx.assumptions += [
         'the canonical dump (all attrs fields incl. private ones, __dict__, container kinds) plus '
@@ -535,12 +700,32 @@ def run(ctx):
                            'object within 1 deviation of every seed object + 12 client hellos at the cipher-suite '
                            'ceiling, each twice (sequences <= %d); (b) 3 entry points x 4 buffer events per seed of '
                            'every class; (c) construct/mutate-in-place/construct histories for every class with '
-                           'defaulted arguments' % seq_depth)
+                           'defaulted arguments; (d) for the first 3 (thorough: all) seed objects of every class: observe '
+                           'with every value observer, edit in place (nested field, top-level field, vector event), '
+                           'observe again - answers must equal those of the equal object built by construction; (e) '
+                           'two parses of the same bytes: every in-place edit of one leaves the other unchanged'
+                           % seq_depth)
 
 
 def replay(ctx, w):
     acc = core.Acc()
     part = w.get('part')
+    if part == 'd':
+        res = _edit_worker((w['cls'], w['seed'], True))
+        for v in res[1]:
+            if v['witness'].get('tag') == w.get('tag'):
+                return v
+        res = _edit_worker((w['cls'], w['seed'], False))
+        for v in res[1]:
+            if v['witness'].get('tag') == w.get('tag'):
+                return v
+        return None
+    if part == 'e':
+        res = _twin_worker((w['cls'],))
+        for v in res[1]:
+            if v['witness'].get('path') == w.get('path') and v['witness'].get('other') == w.get('other'):
+                return v
+        return None
     if part == 'a':
         cls = classes.class_by_name(w['cls'])
         seed = objects.seed_objects()[cls][w['seed']]
